@@ -658,8 +658,10 @@ fn main() {
         .collect();
     let n_core = core.iter().filter(|c| **c).count();
     // per initial store: (full-alphabet depth, total depth)
-    let depths: [(usize, usize); 2] = run.tier.pick([(3, 4), (2, 3)], [(4, 6), (3, 5)]);
-    let budget = Budget::new(Duration::from_secs(run.tier.pick(52, 1700)).saturating_sub(run.elapsed()));
+    let depths: [(usize, usize); 2] = run.tier.pick([(3, 4), (2, 3)], [(3, 6), (3, 5)]);
+    // one wall-clock budget per initial store, so that a slow machine cannot starve the second search
+    let total = Duration::from_secs(run.tier.pick(52, 1500)).saturating_sub(run.elapsed());
+    let budgets = [Budget::new(total.mul_f64(0.7)), Budget::new(total)];
     let cx = Ctx { run: &run, distinct: &distinct, root_dir: root_dir.clone() };
     let replays = AtomicU64::new(0);
     let mut all_stats = Vec::new();
@@ -668,7 +670,7 @@ fn main() {
         let stats = bfs(
             ops.len(),
             depth,
-            &budget,
+            &budgets[root],
             |h: &[usize]| {
                 if h.len() > full_depth && !core[h[h.len() - 1]] {
                     return None;
@@ -687,7 +689,8 @@ fn main() {
         all_stats.push(stats);
     }
     let _ = std::fs::remove_dir_all(&root_dir);
-    if budget.was_hit() {
+    let budget_hit = budgets.iter().any(|b| b.was_hit());
+    if budget_hit {
         run.cap_hit(format!("wall-clock budget; BFS completed depths {:?} of {:?}", all_stats.iter().map(|s| s.completed_depth).collect::<Vec<_>>(), depths.iter().map(|d| d.1).collect::<Vec<_>>()));
         if all_stats[0].completed_depth == 0 {
             run.machinery_error("not even depth 1 completed");
@@ -710,7 +713,7 @@ fn main() {
         ("transitions", json!(transitions + loom.states)),
         ("traces_validated_against_impl", json!(replays.load(Ordering::Relaxed) + loom.states)),
         ("samples", json!(samples)),
-        ("exhaustive", json!(!budget.was_hit() && loom.incomplete.is_empty())),
+        ("exhaustive", json!(!budget_hit && loom.incomplete.is_empty())),
         ("evaluations", json!(distinct.evaluations())),
         ("distinct_nontrivial", json!(distinct.distinct())),
         ("rule", json!("evaluation = one judged submission / cleanup / reload as LAST operation of a history; distinct = distinct (entry point, observed class, applicable rejection set, must-accept) tuples resp. (reload kind, marks before/after)")),
